@@ -28,7 +28,15 @@ Contains(s, sub) == \E i \in 1..(Len(s) - Len(sub) + 1) : SubSeq(s, i, i + Len(s
 Explain(kind, r) ==
   IF kind \in {"described-validator-differs", "described-hash256-differs", "describe-not-a-fixpoint"}
      /\ r.tploneof /\ Contains(r.desc1, "(\"") /\ "tplOneOfDescribe" \in Open
-  THEN "tplOneOfDescribe" ELSE "NEW"
+  THEN "tplOneOfDescribe"
+  \* Known deviation "aliasAtMemberChangesDigest" (see Trace_Rewrite): describe() inlines a named type that is referenced
+  \* once; when that reference sits inside a member of a union / intersection the alias boundary disappears and the digest
+  \* (and the member order of the re-described text) changes although the validator is the same.  r.refunder: the program
+  \* has a named reference beneath a union or intersection (syntactic projection by the harness).
+  ELSE IF kind \in {"described-hash256-differs", "describe-not-a-fixpoint"} /\ r.vec2 = r.vec1 /\ r.refunder
+          /\ "aliasAtMemberChangesDigest" \in Open
+  THEN "aliasAtMemberChangesDigest"
+  ELSE "NEW"
 
 Observe ==
   /\ l <= Len(Rec)
